@@ -93,11 +93,11 @@ func mkWorkloads(long bool) []*workload {
 }
 
 type run struct {
-	wl     *workload
-	cache  uint64
-	c      *lab.Chain
-	cdb    *crashDB
-	retOK  []bool // per delivery: ProcessBlock returned (before the crash)
+	wl    *workload
+	cache uint64
+	c     *lab.Chain
+	cdb   *crashDB
+	retOK []bool // per delivery: ProcessBlock returned (before the crash)
 }
 
 func (r *run) open(crashAt int, create bool) (crashed bool, err error) {
@@ -240,6 +240,9 @@ type crashCase struct {
 	K        int    `json:"crash_before_commit"`
 	J        int    `json:"second_crash_before_recovery_commit"` // -1: none
 	Long     bool   `json:"long"`
+	// RecCache is the utxo cache size used when reopening after the crash
+	// (operators restart with different settings); -1 = same as before.
+	RecCache int64 `json:"recovery_cache"`
 }
 
 type baseline struct {
@@ -320,6 +323,9 @@ func runCase(wl *workload, base *baseline, cc crashCase) (string, int) {
 	}
 	r.die()
 	delivered := append([]bool(nil), r.retOK...)
+	if cc.RecCache >= 0 {
+		r.cache = uint64(cc.RecCache)
+	}
 	// first recovery
 	crashAt2 := -1
 	if cc.J >= 0 {
@@ -450,7 +456,7 @@ func main() {
 		for _, cache := range caches {
 			base, p := runBaseline(wl, cache)
 			if p != "" {
-				r.Violation("baseline/"+wl.Name, fmt.Sprintf("uninterrupted run of workload %s cache=%d failed: %s", wl.Name, cache, p), crashCase{Workload: wl.Name, Cache: cache, K: -1, J: -1, Long: long})
+				r.Violation("baseline/"+wl.Name, fmt.Sprintf("uninterrupted run of workload %s cache=%d failed: %s", wl.Name, cache, p), crashCase{Workload: wl.Name, Cache: cache, K: -1, J: -1, Long: long, RecCache: -1})
 				continue
 			}
 			// determinism of the commit count (the crash space is defined by it)
@@ -459,12 +465,21 @@ func main() {
 				r.Broken("commit count of workload %s is not deterministic", wl.Name)
 			}
 			n1, n2 := 0, 0
-			type job struct{ k, j int }
-			var jobs []job
-			for k := 0; k < base.commits; k++ {
-				jobs = append(jobs, job{k, -1})
+			type job struct {
+				k, j int
+				rc   int64
 			}
-			recN := make([]int, base.commits)
+			recCaches := []int64{-1}
+			if cache == 64<<20 {
+				recCaches = append(recCaches, 0) // restart with a tiny cache: recovery flushes after every replayed block
+			}
+			var jobs []job
+			for _, rc := range recCaches {
+				for k := 0; k < base.commits; k++ {
+					jobs = append(jobs, job{k, -1, rc})
+				}
+			}
+			recN := make([]int, len(jobs))
 			ev.Par(len(jobs), runtime.NumCPU(), func(i int) {
 				if r.Expired() {
 					mu.Lock()
@@ -472,12 +487,12 @@ func main() {
 					mu.Unlock()
 					return
 				}
-				cc := crashCase{Workload: wl.Name, Cache: cache, K: jobs[i].k, J: -1, Long: long}
+				cc := crashCase{Workload: wl.Name, Cache: cache, K: jobs[i].k, J: -1, Long: long, RecCache: jobs[i].rc}
 				what, rc := runCase(wl, base, cc)
-				recN[jobs[i].k] = rc
+				recN[i] = rc
 				r.Eval(1)
 				r.Trace(1)
-				r.Nontrivial(fmt.Sprintf("%s/%d/%d/-1", wl.Name, cache, jobs[i].k))
+				r.Nontrivial(fmt.Sprintf("%s/%d/%d/-1/%d", wl.Name, cache, jobs[i].k, jobs[i].rc))
 				mu.Lock()
 				n1++
 				mu.Unlock()
@@ -487,9 +502,9 @@ func main() {
 			})
 			if nested {
 				var j2 []job
-				for k := 0; k < base.commits; k++ {
-					for j := 0; j < recN[k]; j++ {
-						j2 = append(j2, job{k, j})
+				for i, jb := range jobs {
+					for j := 0; j < recN[i]; j++ {
+						j2 = append(j2, job{jb.k, j, jb.rc})
 					}
 				}
 				ev.Par(len(j2), runtime.NumCPU(), func(i int) {
@@ -499,14 +514,14 @@ func main() {
 						mu.Unlock()
 						return
 					}
-					cc := crashCase{Workload: wl.Name, Cache: cache, K: j2[i].k, J: j2[i].j, Long: long}
+					cc := crashCase{Workload: wl.Name, Cache: cache, K: j2[i].k, J: j2[i].j, Long: long, RecCache: j2[i].rc}
 					what, rc := runCase(wl, base, cc)
 					if rc == -1 {
 						return
 					}
 					r.Eval(1)
 					r.Trace(1)
-					r.Nontrivial(fmt.Sprintf("%s/%d/%d/%d", wl.Name, cache, j2[i].k, j2[i].j))
+					r.Nontrivial(fmt.Sprintf("%s/%d/%d/%d/%d", wl.Name, cache, j2[i].k, j2[i].j, j2[i].rc))
 					mu.Lock()
 					n2++
 					mu.Unlock()
@@ -519,7 +534,7 @@ func main() {
 			r.State(n1 + n2)
 			r.Trans((n1 + n2) * len(wl.order))
 			if n1 > 0 {
-				r.Sample(crashCase{Workload: wl.Name, Cache: cache, K: base.commits / 2, J: -1, Long: long})
+				r.Sample(crashCase{Workload: wl.Name, Cache: cache, K: base.commits / 2, J: -1, Long: long, RecCache: -1})
 			}
 		}
 	}
@@ -552,5 +567,5 @@ func report(r *ev.Run, wl *workload, base *baseline, cc crashCase, what string) 
 		cls = "convergence/" + strings.TrimSuffix(what[i+8:], "]")
 		nest = "any"
 	}
-	r.Violation(fmt.Sprintf("%s/%s/%s", wl.Name, nest, strings.ReplaceAll(cls, " ", "-")), fmt.Sprintf("workload=%s cache=%d crash-before-commit=%d second-crash=%d: %s", cc.Workload, cc.Cache, cc.K, cc.J, what), cc)
+	r.Violation(fmt.Sprintf("%s/%s/%s", wl.Name, nest, strings.ReplaceAll(cls, " ", "-")), fmt.Sprintf("workload=%s cache=%d recovery-cache=%d crash-before-commit=%d second-crash=%d: %s", cc.Workload, cc.Cache, cc.RecCache, cc.K, cc.J, what), cc)
 }
